@@ -3,6 +3,7 @@ package main
 import (
 	"encoding/json"
 	"fmt"
+	"math"
 	"math/rand"
 	"time"
 
@@ -124,9 +125,10 @@ func (s *session) hashPairs(b *valpool.Builder) error {
 			c.Distinct("hash|" + pool[i].Name() + "|" + pool[j].Name())
 		}
 	}
-	// class representatives
-	for _, c1 := range s.classes {
-		for _, c2 := range s.classes {
+	// class representatives: ALL classes of the pool, also the conditional ones and those left out of
+	// the map replays (the implication only speaks about pairs the real eq reports equal)
+	for _, c1 := range s.all {
+		for _, c2 := range s.all {
 			for _, r1 := range c1.all() {
 				for _, r2 := range c2.all() {
 					leaf := ""
@@ -138,6 +140,18 @@ func (s *session) hashPairs(b *valpool.Builder) error {
 			}
 		}
 	}
+	// same-looking values with different bits / origins, alone and inside containers (as element, as map
+	// value, as map key, nested): NaNs, zeros, infinities, subnormals
+	cands := lookAlikes(b)
+	for i, x := range cands {
+		for j, y := range cands {
+			rec(x.v, y.v, -1, x.name, y.name, x.leafWith(y))
+			if i < j {
+				c.Distinct("lookalike|" + x.name + "|" + y.name)
+			}
+		}
+	}
+	c.Set("lookalike_values", len(cands))
 	// random related values
 	g := rand.New(rand.NewSource(c.Seed + 5))
 	nrand := c.Pick(3000, 60000)
@@ -251,4 +265,62 @@ func flipZeros(t *valpool.Term, g *rand.Rand) *valpool.Term {
 	}
 	walk(c)
 	return c
+}
+
+type lookAlike struct {
+	name string
+	v    any
+	zero int // +1 / -1 when the value is (built from) +0.0 / -0.0
+	wrap string
+}
+
+func (x lookAlike) leafWith(y lookAlike) string {
+	if x.wrap == y.wrap && x.zero*y.zero == -1 {
+		return "+0.0/-0.0"
+	}
+	return ""
+}
+
+// lookAlikes builds floats that print alike but differ in bits or origin, through the Go API and
+// through Elvish arithmetic, each alone and wrapped in a list, a nested list, a map value and a map key.
+func lookAlikes(b *valpool.Builder) []lookAlike {
+	type base struct {
+		name string
+		v    any
+		zero int
+	}
+	nan := math.NaN()
+	bs := []base{
+		{"NaN:math.NaN()", nan, 0},
+		{"NaN:-sign", math.Copysign(nan, -1), 0},
+		{"NaN:0xfff8000000000000", math.Float64frombits(0xfff8000000000000), 0},
+		{"NaN:payload", math.Float64frombits(0x7ff8000000000123), 0},
+		{"NaN:signalling-pattern", math.Float64frombits(0x7ff0000000000001), 0},
+		{"+0.0", 0.0, 1}, {"-0.0", math.Copysign(0, -1), -1},
+		{"+Inf", math.Inf(1), 0}, {"-Inf", math.Inf(-1), 0},
+		{"subnormal", math.SmallestNonzeroFloat64, 0}, {"-subnormal", -math.SmallestNonzeroFloat64, 0},
+	}
+	for _, code := range []string{"(num NaN)", "(- (num +Inf) (num +Inf))", "(* (num 0.0) (num +Inf))", "(/ (num 0.0) (num 0.0))", "(+ (num NaN) 1)",
+		"(- (num NaN))", "(num -0.0)", "(* (num -1.0) (num 0.0))", "(* (num 1e308) 10)", "(/ (num 1e-323) 2)", "(/ (num -1e-323) 2)"} {
+		if x, err := b.Eval(code); err == nil {
+			z := 0
+			if f, ok := x.(float64); ok && f == 0 {
+				z = 1
+				if math.Signbit(f) {
+					z = -1
+				}
+			}
+			bs = append(bs, base{"code:" + code, x, z})
+		}
+	}
+	var out []lookAlike
+	for _, x := range bs {
+		out = append(out,
+			lookAlike{x.name, x.v, x.zero, ""},
+			lookAlike{"[" + x.name + "]", vals.MakeList(x.v), x.zero, "list"},
+			lookAlike{"[a [" + x.name + "]]", vals.MakeList("a", vals.MakeList(x.v)), x.zero, "nested"},
+			lookAlike{"[&k=" + x.name + "]", vals.MakeMap("k", x.v), x.zero, "mapval"},
+			lookAlike{"[&" + x.name + "=v]", vals.MakeMap(x.v, "v"), x.zero, "mapkey"})
+	}
+	return out
 }
